@@ -177,6 +177,66 @@ theorem C01_copy_equal (st : State) (d s : Nat) (hs : reg st s ≠ .none) (hd : 
   refine ⟨by simp [reg, List.getD_eq_getElem?_getD, hd], fun k hk => ?_⟩
   simp [reg, List.getD_eq_getElem?_getD, List.getElem?_set, Ne.symm hk]
 
+
+/-! ## Refusals happen exactly where the contract says (audit 6: every hypothesis / abstention that is reachable) -/
+
+/-- `C01_bonds_same_atoms` needs a duplicate-free selection.  With duplicates the code refuses — exactly when the
+container has bonds and an index array / list selects an atom twice (`NotImplementedError`, documented). -/
+theorem C01_dup_index_rejects (a : Arr) (is : List Int) (sel : List Nat) (b : Bonds)
+    (hb : a.bonds = some b) (hr : resolve a.n (.arr is .nd) = .ok sel) :
+    subarray a (.arr is .nd) = .error .notImplemented ↔ hasDup sel = true := by
+  unfold subarray
+  simp only [hr, hb, bondsErr, bondsMaskUB, bondsIndexErr, reduceCtorEq, if_false, Bool.false_eq_true]
+  by_cases hd : hasDup sel = true <;> simp [hd]
+
+/-- … and a container without bonds accepts every resolvable index, duplicates included. -/
+theorem C01_no_bonds_accepts (a : Arr) (ix : Index) (sel : List Nat) (hb : a.bonds = none)
+    (he : ix ≠ .ellipsis) (hr : resolve a.n ix = .ok sel) : ∃ a', subarray a ix = .ok a' := by
+  unfold subarray
+  simp [he, hr, hb]
+
+/-- `array[index] = atom` is refused with `KeyError` exactly when the index is an integer/ndarray and the atom
+lacks a category of the array — before anything is written (the state is unchanged on every error). -/
+theorem C01_setitem_missing_category_rejects (a : Arr) (ix : Index) (v : AtomV) :
+    setElement a ix v = .error .keyError ↔
+      (setIndexOk ix = true ∧ (a.annot.all (fun p => hasKey p.1 v.annot)) = false) := by
+  unfold setElement
+  by_cases h1 : setIndexOk ix = true
+  · by_cases h2 : (a.annot.all (fun p => hasKey p.1 v.annot)) = true
+    · simp only [h1, h2, Bool.not_true, Bool.false_eq_true, if_false, true_and]
+      cases hr : resolve a.n ix with
+      | error e =>
+        have : e ≠ .keyError := by
+          rcases resolve_err hr with h | h <;> subst h <;> simp
+        simp [this]
+      | ok sel => simp
+    · have h2' : (a.annot.all (fun p => hasKey p.1 v.annot)) = false := by simpa using h2
+      simp [h1, h2']
+  · have h1' : setIndexOk ix = false := by simpa using h1
+    simp [h1']
+
+/-- A stack refuses a box whose number of models differs from its coordinates (`stack.box = …`), and
+coordinates with another number of models while it has a box (`stack.coord = …`) — `ValueError`, exactly then. -/
+theorem C01_box_depth_rejects (a : Arr) (hs : a.stack = true) (b : List Tok) (coord : List (List Tok))
+    (hb : a.box = some b) (hlen : ∀ c ∈ coord, c.length = a.n) :
+    (setBox a (some b') = .error .valueError ↔ b'.length ≠ a.coord.length) ∧
+    (setCoord a coord = .error .valueError ↔ coord.length ≠ a.coord.length) := by
+  constructor
+  · unfold setBox boxDepthBad boxErr
+    by_cases h : b'.length = a.coord.length <;> simp [h, hs]
+  · unfold setCoord
+    have hall : coord.all (fun c => c.length == a.n) = true := by
+      simp only [List.all_eq_true, beq_iff_eq]; exact hlen
+    by_cases h : coord.length = a.coord.length <;> simp [hs, hall, hb, h]
+
+/-- `stack[i] = array`: an array without box is refused by a stack that has boxes (`ValueError`), before the index
+is looked at. -/
+theorem C01_setmodel_boxless_rejects (a x : Arr) (i : Int) (b : List Tok) (hx : x.stack = false) (hn : x.n = a.n)
+    (ha : equalAnnot a.annot x.annot = true) (hbd : equalBonds a.bonds x.bonds = true)
+    (hb : a.box = some b) (hxb : x.box = none) :
+    setModel a (.int i) (.arr x) = .error .valueError := by
+  simp [setModel, hx, hn, ha, hbd, hb, hxb]
+
 /-! ## Obligations on what is regenerated from `atoms.py` on every run -/
 
 /-- Every mutable field assigned in `_AtomArrayBase.__init__` is re-created by a `.copy(...)` call in the copy
